@@ -65,6 +65,25 @@ def cache_key(text):
 
 
 _L1 = {}
+_SMT = {}
+
+
+def _smt_load():
+    """the text-keyed cache: append-only .jsonl files (one per process), read once per run"""
+    if "map" not in _SMT:
+        m = {}
+        d = os.path.join(CACHE, "bytext")
+        if os.path.isdir(d):
+            for f in os.listdir(d):
+                try:
+                    with open(os.path.join(d, f)) as fh:
+                        for line in fh:
+                            e = json.loads(line)
+                            m[e["key"]] = e
+                except Exception:
+                    pass
+        _SMT["map"] = m
+    return _SMT["map"]
 
 
 def _l1_key():
@@ -128,28 +147,26 @@ def discharge_cached(obls, tier, seed, use_cache=True):
             continue
         ob.text = solve.to_smt2(ob)
         ob.key = cache_key(ob.text)
-        path = os.path.join(CACHE, ob.key[:2], ob.key)
         ob.cached = False
-        if use_cache and ob.kind not in GUARD_KINDS and os.path.exists(path):
-            try:
-                with open(path) as f:
-                    d = json.load(f)
-                ob.result, ob.backend, ob.time, ob.all_results, ob.cached = "unsat", d["backend"], d["time"], [], True
-                continue
-            except Exception:
-                pass
+        d = _smt_load().get(ob.key) if (use_cache and ob.kind not in GUARD_KINDS) else None
+        if d is not None:
+            ob.result, ob.backend, ob.time, ob.all_results, ob.cached = "unsat", d["backend"], d["time"], [], True
+            continue
         todo.append(ob)
     rounds = solve.ROUNDS_THOROUGH if tier == "thorough" else solve.ROUNDS_QUICK
     solve.discharge(todo, rounds=rounds, seed=seed, both=(tier == "thorough"))
-    for ob in todo:
-        if ob.result == "unsat" and ob.kind not in GUARD_KINDS:
-            try:
-                d = os.path.join(CACHE, ob.key[:2])
-                os.makedirs(d, exist_ok=True)
-                with open(os.path.join(d, ob.key), "w") as f:
-                    json.dump({"backend": ob.backend, "time": ob.time, "name": ob.name}, f)
-            except OSError:
-                pass        # the cache is an optimisation only
+    solved = [ob for ob in todo if ob.result == "unsat" and ob.kind not in GUARD_KINDS]
+    if solved and use_cache:
+        try:
+            d = os.path.join(CACHE, "bytext")
+            os.makedirs(d, exist_ok=True)
+            with open(os.path.join(d, "%d.jsonl" % os.getpid()), "a") as f:
+                for ob in solved:
+                    e = {"key": ob.key, "backend": ob.backend, "time": ob.time}
+                    f.write(json.dumps(e) + "\n")
+                    _smt_load()[ob.key] = e
+        except OSError:
+            pass        # the cache is an optimisation only
     if use_cache and tier != "thorough":
         d = os.path.join(CACHE, "byname", _l1_key())
         os.makedirs(d, exist_ok=True)
